@@ -350,7 +350,8 @@ fn fe_record(case: &FeCase, scratch: &str, lsp: &Session, lsp_root: &str) -> Val
   put("r-pretty", &o, json_findings(&parse_json_any(&o.stdout)));
   let o = run(&["scan", "-r", "rules/all.yml", "--json=compact", &rel], None);
   put("r-compact", &o, json_findings(&parse_json_any(&o.stdout)));
-  let first_lang_ok = case.docs[0]["language"] == ls.lang;
+  // a rule confined by `files` has nothing to say about a text without a path (--stdin): those front ends are left out
+  let first_lang_ok = case.docs[0]["language"] == ls.lang && case.docs.iter().all(|d| d.get("files").is_none());
   if first_lang_ok {
     let o = run(&["scan", "-r", "rules/all.yml", "--stdin", "--json=stream"], Some(&case.text));
     put("stdin", &o, json_findings(&json_lines(&o.stdout)));
@@ -365,7 +366,7 @@ fn fe_record(case: &FeCase, scratch: &str, lsp: &Session, lsp_root: &str) -> Val
   put("test", &o, test_verdicts(&o.stdout));
   p.remove();
   // language server: same rules (loaded once per rule set by the caller), same text
-  let lrel = format!("{}/t.{}", case.id, ls.ext);
+  let lrel = format!("src/{}/t.{}", case.id, ls.ext);
   let _ = lsp_root;
   lsp.open(&lrel, ls.lang, 1, &case.text);
   let quiet = lsp.wait_handlers(&lrel, 1, 10000);
@@ -533,7 +534,13 @@ pub fn drive(vectors: &str, seed: u64, out: &str, thorough: bool) {
   for (li, ls) in LANGS.iter().enumerate() {
     for variant in 0..(if thorough { 8 } else { 4 }) {
       let variant = variant + (seed as usize % 5);
-      let docs = rule_docs(ls, variant, variant % 2 == 0);
+      let mut docs = rule_docs(ls, variant, variant % 2 == 0);
+      // every third rule set: the first rule is confined to `src/**` - a glob relative to the project directory, which
+      // holds the text in the command line's project (src/t.*) and in the language server's (src/<case>/t.*) alike
+      let globbed = variant % 3 == 1;
+      if globbed {
+        docs[0]["files"] = json!(["src/**"]);
+      }
       let lsp_root = format!("{scratch}/lsp");
       let sess = Session::start(&yaml_of(&docs), &lsp_root, 0, 2);
       let cases: Vec<FeCase> = (0..per_lang / 3 + 1)
